@@ -35,7 +35,7 @@ namespace {
 
     struct JobQueue {
         std::queue<Job> jobs;
-        JobState state{JobState::kParallelQueue};
+        std::atomic<JobState> state{JobState::kParallelQueue}; // read by wait() without the mutex
 
         bool isEmpty() const noexcept {
             return jobs.empty();
